@@ -4,7 +4,10 @@
 use std::collections::BTreeSet;
 use std::path::Path;
 
-pub const REPO: &str = "/repo";
+/// Working tree the corpus is read from (default /repo; env override for background snapshot runs).
+pub fn repo() -> std::path::PathBuf {
+    std::path::PathBuf::from(std::env::var("VERIF_REPO").unwrap_or_else(|_| "/repo".to_string()))
+}
 
 fn walk(dir: &Path, out: &mut Vec<std::path::PathBuf>) {
     let Ok(rd) = std::fs::read_dir(dir) else { return };
@@ -144,7 +147,7 @@ pub fn load() -> Vec<(String, String)> {
         }
     };
     let mut files = vec![];
-    walk(&Path::new(REPO).join("garble_examples"), &mut files);
+    walk(&repo().join("garble_examples"), &mut files);
     for f in &files {
         if f.extension().map(|e| e == "rs").unwrap_or(false) {
             if let Ok(t) = std::fs::read_to_string(f) {
@@ -153,8 +156,8 @@ pub fn load() -> Vec<(String, String)> {
         }
     }
     let mut files = vec![];
-    walk(&Path::new(REPO).join("garble_docs"), &mut files);
-    files.push(Path::new(REPO).join("README.md"));
+    walk(&repo().join("garble_docs"), &mut files);
+    files.push(repo().join("README.md"));
     for f in &files {
         if f.extension().map(|e| e == "md").unwrap_or(false) {
             if let Ok(t) = std::fs::read_to_string(f) {
@@ -167,8 +170,8 @@ pub fn load() -> Vec<(String, String)> {
         }
     }
     let mut files = vec![];
-    walk(&Path::new(REPO).join("tests"), &mut files);
-    walk(&Path::new(REPO).join("src"), &mut files);
+    walk(&repo().join("tests"), &mut files);
+    walk(&repo().join("src"), &mut files);
     for f in &files {
         if f.extension().map(|e| e == "rs").unwrap_or(false) {
             if let Ok(t) = std::fs::read_to_string(f) {
